@@ -19,6 +19,13 @@
 #include <urcu/assert.h>
 #include <urcu/compiler.h>
 #include <urcu/uatomic.h>
+#ifdef URCU_VERIF
+#include <urcu/verif.h>
+#else
+#ifndef urcu_verif_point
+#define urcu_verif_point(id, ctx) do { } while (0)
+#endif
+#endif
 
 #ifdef __cplusplus
 extern "C" {
@@ -180,6 +187,7 @@ static inline bool ___cds_wfcq_append(cds_wfcq_head_ptr_t u_head,
 	 * node->next to NULL before publication.
 	 */
 	old_tail = uatomic_xchg_mo(&tail->p, new_tail, CMM_SEQ_CST);
+	urcu_verif_point(URCU_VP_WFCQ_APPEND_MID, tail);
 
 	/*
 	 * Implicit memory barrier after uatomic_xchg() orders store to
@@ -245,6 +253,7 @@ ___cds_wfcq_busy_wait(int *attempt, int blocking)
 	if (!blocking)
 		return 1;
 	if (++(*attempt) >= WFCQ_ADAPT_ATTEMPTS) {
+		urcu_verif_point(URCU_VP_WFCQ_BUSY_WAIT, attempt);
 		CDS_WFCQ_WAIT_SLEEP(WFCQ_WAIT);		/* Wait for 10ms */
 		*attempt = 0;
 	} else {
@@ -268,6 +277,7 @@ ___cds_wfcq_node_sync_next(struct cds_wfcq_node *node, int blocking)
 	 * Load node.next before loading node's content
 	 */
 	while ((next = uatomic_load(&node->next, CMM_CONSUME)) == NULL) {
+		urcu_verif_point(URCU_VP_WFCQ_SYNC_NEXT_WAIT, node);
 		if (___cds_wfcq_busy_wait(&attempt, blocking))
 			return CDS_WFCQ_WOULDBLOCK;
 	}
@@ -418,6 +428,7 @@ ___cds_wfcq_dequeue_with_state(cds_wfcq_head_ptr_t u_head,
 		 * q->head.next will be set to the next node.
 		 */
 		_cds_wfcq_node_init_atomic(&head->node);
+		urcu_verif_point(URCU_VP_WFCQ_DEQ_BEFORE_CMPXCHG, tail);
 		if (uatomic_cmpxchg_mo(&tail->p, node, &head->node,
 					CMM_SEQ_CST, CMM_SEQ_CST) == node) {
 			if (state)
@@ -425,6 +436,7 @@ ___cds_wfcq_dequeue_with_state(cds_wfcq_head_ptr_t u_head,
 			cmm_emit_legacy_smp_mb();
 			return node;
 		}
+		urcu_verif_point(URCU_VP_WFCQ_DEQ_CMPXCHG_FAILED, tail);
 		next = ___cds_wfcq_node_sync_next(node, blocking);
 		/*
 		 * In nonblocking mode, if we would need to block to
@@ -432,6 +444,7 @@ ___cds_wfcq_dequeue_with_state(cds_wfcq_head_ptr_t u_head,
 		 * (currently NULL) back to its original value.
 		 */
 		if (!blocking && next == CDS_WFCQ_WOULDBLOCK) {
+			urcu_verif_point(URCU_VP_WFCQ_DEQ_NB_RESTORE, tail);
 			uatomic_store(&head->node.next, node);
 			return CDS_WFCQ_WOULDBLOCK;
 		}
@@ -542,6 +555,7 @@ ___cds_wfcq_splice(
 		head = uatomic_xchg_mo(&src_q_head->node.next, NULL, CMM_SEQ_CST);
 		if (head)
 			break;	/* non-empty */
+		urcu_verif_point(URCU_VP_WFCQ_SPLICE_NULL_HEAD, src_q_tail);
 		if (uatomic_load(&src_q_tail->p, CMM_CONSUME) == &src_q_head->node)
 			return CDS_WFCQ_RET_SRC_EMPTY;
 		if (___cds_wfcq_busy_wait(&attempt, blocking))
@@ -555,6 +569,7 @@ ___cds_wfcq_splice(
 	 * updating the previous tail's next pointer.
 	 */
 	cmm_emit_legacy_smp_mb();
+	urcu_verif_point(URCU_VP_WFCQ_SPLICE_MID, src_q_tail);
 	tail = uatomic_xchg_mo(&src_q_tail->p, &src_q_head->node, CMM_SEQ_CST);
 
 	/*
